@@ -116,6 +116,20 @@ def check_instance(parser, v, name, node, lines, text, mode, rec):
     if structref.tree_of(m2) != got:
         rec.violation('nondeterministic-tree', case, {}, row=row)
         return
+    # a message profile that restates the standard structure (an equal copy, not the library's own objects): same tree
+    if mode in ('repeat', 'random', 'z-inside'):
+        from . import c18
+        prof = {name: c18.freeze(c18.thaw(tables.lib(v).MESSAGES[name]))}
+        try:
+            tp = structref.tree_of(parser.parse_message(text, message_profile=prof, find_groups=True))
+        except Exception as e:
+            rec.violation('parse-with-restating-profile-raised:%s' % type(e).__name__, case, {'exc': repr(e)[:200]}, row=row)
+            return
+        rec.count('restating_profile_trees_compared')
+        if tp != got:
+            d = [(a, b) for a, b in zip(got, tp) if a != b][:2]
+            rec.violation('restating-profile-changes-the-group-tree', case, {'first_diff': str(d)[:300]}, row=row)
+            return
     # the same text assigned to a message created without a name (it becomes that message) and to one created with it
     from hl7apy import core
     for how, mk in (('unnamed', lambda: core.Message(version=v, encoding_chars=gen.full_ec(er7ref.STD))),
